@@ -38,7 +38,7 @@ func init() {
 			}
 			for k := 0; k < n && !b.Stop(); k++ {
 				fam := fams[(b.Batch+k)%len(fams)]
-				sc := drawScenario(b.Rng, fam, fw.Quick(b.Tier))
+				sc := drawScenario(b.Rng, fam, fw.Quick(b.Tier), (b.Batch+k)%4 == 2)
 				if k%2 == 0 {
 					sc.StepEvery = false // multi-slot jumps inside StateTransition
 				}
@@ -72,7 +72,7 @@ func init() {
 			}
 			for k := 0; k < n && !b.Stop(); k++ {
 				fam := fams[(b.Batch+k+3)%len(fams)]
-				sc := drawScenario(b.Rng, fam, fw.Quick(b.Tier))
+				sc := drawScenario(b.Rng, fam, fw.Quick(b.Tier), (b.Batch+k)%4 == 0)
 				sc.StepEvery = true
 				if fam != "churn" && fam != "capella" {
 					sc.PBlock *= 0.9
